@@ -28,7 +28,8 @@ var keyNames = []string{"k0", "k1", "k2"}
 
 // latencies of the supplied function: odd milliseconds, so that an execution that
 // starts on the (even) call grid never ends on it; 0 is the degenerate case.
-var latencies = []time.Duration{0, 3 * time.Millisecond, 21 * time.Millisecond}
+// The fourth one (random cases only) is longer than the memoizer's finite expiry (40ms).
+var latencies = []time.Duration{0, 3 * time.Millisecond, 21 * time.Millisecond, 61 * time.Millisecond}
 
 // gaps between the start of consecutive calls (even milliseconds)
 var gapsSmall = []time.Duration{0, 2 * time.Millisecond, 10 * time.Millisecond, 50 * time.Millisecond}
@@ -101,7 +102,7 @@ func gen(s pbt.Src, thorough bool) Case {
 		case 3:
 			gap = 2 * (10 + s.Intn(25))
 		}
-		cl := Call{Key: s.Intn(nk), Gap: gap, Lat: s.Intn(3), Fail: s.Intn(4) == 0}
+		cl := Call{Key: s.Intn(nk), Gap: gap, Lat: s.Intn(4), Fail: s.Intn(4) == 0}
 		if cl.Fail {
 			cl.Partial = s.Intn(3) == 0
 		}
